@@ -72,6 +72,8 @@ func runC11(c *Ctx) {
 	c.r111()
 	c.r114()
 	c.r115()
+	// a data URI rewritten inside url(…) must still be one URL token afterwards: same rule as R09.8
+	c.alsoUnder(map[string]string{"R09.8": "R11.6", "R09.9": "R11.7"}, nil, func() { c.r098() })
 }
 
 // R11.5: the data URI's payload minifier is looked up under the media type as parsed.
